@@ -34,7 +34,7 @@ pub fn main(args: &[String]) -> i32 {
     let mut flagsets: Vec<Fl> = Vec::new();
     for uv in 0..3 {
         for bits in 0..4 {
-            flagsets.push(Fl { i: bits & 1 != 0, m: bits & 2 != 0, s: bits == 3, u: uv == 1, v: uv == 2 });
+            flagsets.push(Fl { i: bits & 1 != 0, m: bits & 2 != 0, s: bits == 3, u: uv == 1, v: uv == 2, sp: 0 });
         }
     }
     let mut done = 0usize;
